@@ -206,11 +206,19 @@ func analyseInterleave(p *packages.Package, fd *ast.FuncDecl) interleave {
 			if x.Tag == nil && sw == nil {
 				sw = x
 			}
+		case *ast.IfStmt:
+			// the two-armed if/else form of the same choice (inside the loop, no switch seen)
+			if blk, isBlk := x.Else.(*ast.BlockStmt); isBlk && loopVar != nil && sw == nil && x.Init == nil {
+				sw = &ast.SwitchStmt{Switch: x.Pos(), Body: &ast.BlockStmt{List: []ast.Stmt{
+					&ast.CaseClause{Case: x.Pos(), List: []ast.Expr{x.Cond}, Body: x.Body.List},
+					&ast.CaseClause{Case: blk.Pos(), List: nil, Body: blk.List},
+				}}}
+			}
 		}
 		return true
 	})
 	if loopVar == nil || sw == nil {
-		res.why = "no loop over positions with a tag-less switch found"
+		res.why = "no loop over positions with a tag-less switch (or if/else) found"
 		return res
 	}
 	res.loopVar = loopVar
@@ -308,6 +316,46 @@ func runC13(c *Ctx) {
 	} else {
 		ci := analyseInterleave(p, cfd)
 		si := analyseInterleave(p, sfd)
+		// the choice may be written either way round ("if secondary position … else …" or "if primary
+		// position … else …"): normalise so that the mask always marks the positions of the secondary id
+		if ci.ok {
+			sig0 := p.TypesInfo.Defs[cfd.Name].Type().(*types.Signature)
+			if sig0.Params().Len() == 2 {
+				prim0, sec0 := sig0.Params().At(0), sig0.Params().At(1)
+				if ci.caseObjs[prim0] && !ci.caseObjs[sec0] && ci.defObjs[sec0] && !ci.defObjs[prim0] {
+					ci.caseObjs, ci.defObjs, ci.mask = ci.defObjs, ci.caseObjs, ^ci.mask
+				}
+			}
+		}
+		if si.ok {
+			var ret0 *ast.ReturnStmt
+			ast.Inspect(sfd.Body, func(n ast.Node) bool {
+				if r, ok := n.(*ast.ReturnStmt); ok {
+					ret0 = r
+				}
+				return true
+			})
+			if ret0 != nil && len(ret0.Results) == 2 {
+				objOf0 := func(e ast.Expr) types.Object {
+					var o types.Object
+					ast.Inspect(e, func(n ast.Node) bool {
+						if id, ok := n.(*ast.Ident); ok && o == nil {
+							if u := p.TypesInfo.Uses[id]; u != nil {
+								if _, isVar := u.(*types.Var); isVar {
+									o = u
+								}
+							}
+						}
+						return true
+					})
+					return o
+				}
+				po0, so0 := objOf0(ret0.Results[0]), objOf0(ret0.Results[1])
+				if po0 != nil && so0 != nil && si.caseObjs[po0] && !si.caseObjs[so0] && si.defObjs[so0] && !si.defObjs[po0] {
+					si.caseObjs, si.defObjs, si.mask = si.defObjs, si.caseObjs, ^si.mask
+				}
+			}
+		}
 		c.Sites += 128
 		switch {
 		case !ci.ok:
